@@ -108,7 +108,7 @@ fn boundary_lens(kid: u8, thorough: bool) -> Vec<usize> {
         }
         v.retain(|x| *x <= cap);
     } else {
-        v.extend_from_slice(&[63, 64, 65, 127, 128, 129, 191, 192, 193, 255, 256, 257]);
+        v.extend_from_slice(&[63, 64, 65, 127, 128, 129, 191, 192, 193, 255, 256, 257, 319, 320, 321, 383, 384, 385, 447, 448, 449, 511, 512, 513, 575, 576, 577, 640, 1023, 1024, 1025]);
         if thorough {
             v.extend_from_slice(&[511, 512, 513, 1023, 1024, 1025, 2047, 2048, 2049, 4095, 4096, 4097]);
         }
@@ -125,7 +125,7 @@ pub fn rand_len(ctx: &mut Ctx, kid: u8) -> usize {
     } else if kind_is_fixed(kid) {
         ctx.rng.below(kind_cap(kid) as u64 + 1) as usize
     } else {
-        let m = ctx.scale(300, 1100);
+        let m = ctx.scale(700, 1100);
         ctx.rng.below(m) as usize
     }
 }
@@ -441,7 +441,8 @@ fn shift_amounts(ctx: &mut Ctx, t: u128, len: usize) -> u128 {
     let bits = if t == 65 { 64 } else { t as u32 };
     let max: u128 = if bits == 128 { u128::MAX } else { (1u128 << bits) - 1 };
     let l = len as u128;
-    let cands = [0, 1, 2, 7, 8, 9, 63, 64, 65, 127, 128, 129, l.wrapping_sub(1), l, l + 1, l / 2, max, max - 1,
+    let cands = [0, 1, 2, 7, 8, 9, 15, 16, 17, 31, 32, 33, 63, 64, 65, 127, 128, 129, 191, 192, 193, 255, 256, 257, 320, 384, l.wrapping_sub(1), l, l + 1, l / 2,
+        l.saturating_sub(64), l.saturating_sub(65), l.saturating_sub(128), (l / 64) * 64, (l / 128) * 128, max, max - 1,
         (1u128 << 32), u64::MAX as u128, (u64::MAX as u128) + 1, (u64::MAX as u128) + 2, 1u128 << 127];
     (if ctx.rng.chance(3, 4) { ctx.rng.pick(&cands) } else { ctx.rng.below(len as u64 + 3) as u128 }) & max
 }
@@ -661,7 +662,9 @@ fn observer_battery(ctx: &mut Ctx, a: &Val, n: u64) {
             3 => Case::new(29).val(a.clone()),
             4 => {
                 let sp = ctx.rng.pick(&FMT_SPECS);
-                let mut c = Case::new(31).arg(ctx.rng.below(5) as u128);
+                // decimal formatting is quadratic in the model: only for moderately long vectors
+                let which = if a.len > 200 { 1 + ctx.rng.below(4) } else { ctx.rng.below(5) };
+                let mut c = Case::new(31).arg(which as u128);
                 for x in sp {
                     c = c.arg(x);
                 }
@@ -905,7 +908,47 @@ fn gen_c10(ctx: &mut Ctx) {
     }
 }
 
+/// the degenerate fixed type without any storage word: capacity 0, only the empty vector
+fn zero_word_cases(ctx: &mut Ctx) {
+    let z = make_val(KZ, 0, &[], 0, false);
+    for t in UINT_TYPES {
+        for x in [0u128, 1, 255] {
+            ctx.emit(Case::new(8).kind(KZ).arg(tb(t)).arg(x).arg(us(t)));
+        }
+        ctx.emit(Case::new(33).arg(tb(t)).arg(us(t)).val(z.clone()));
+    }
+    for which in 0..5u128 {
+        let mut c = Case::new(31).arg(which);
+        for x in FMT_SPECS[1] {
+            c = c.arg(x);
+        }
+        ctx.emit(c.val(z.clone()));
+    }
+    for len in [0u128, 1] {
+        ctx.emit(Case::new(1).kind(KZ).arg(len));
+        ctx.emit(Case::new(2).kind(KZ).arg(len));
+    }
+    ctx.emit(Case::new(41).arg(1).val(z.clone()));
+    ctx.emit(Case::new(42).val(z.clone()));
+    ctx.emit(Case::new(29).val(z.clone()));
+    ctx.emit(Case::new(28).val(z.clone()));
+    ctx.emit(Case::new(32).val(z.clone()));
+    ctx.emit(Case::new(22).arg(0).val(z.clone()));
+    ctx.emit(Case::new(4).kind(KZ).list(vec![]));
+    ctx.emit(Case::new(4).kind(KZ).list(vec![48]));
+    ctx.emit(Case::new(6).kind(KZ).arg(0).list(vec![]));
+    for k in [0u8, 8, KD, KA] {
+        let a = rand_val(ctx, k);
+        ctx.emit(Case::new(66).form(3).val(a.clone()).val(z.clone()));
+        ctx.emit(Case::new(66).form(3).val(z.clone()).val(a.clone()));
+        ctx.emit(Case::new(35).val(z.clone()).val(a.clone()));
+        ctx.emit(Case::new(11).kind(k).val(z.clone()));
+        ctx.emit(Case::new(46).val(a).val(z.clone()));
+    }
+}
+
 fn gen_c11(ctx: &mut Ctx) {
+    zero_word_cases(ctx);
     for k in 0..NKINDS {
         for t in UINT_TYPES {
             let n = ctx.scale(40, 400);
@@ -1026,6 +1069,7 @@ fn gen_c13(ctx: &mut Ctx) {
 }
 
 fn gen_c14(ctx: &mut Ctx) {
+    zero_word_cases(ctx);
     let n = ctx.scale(12, 120);
     for k in 0..NKINDS {
         for which in 0..5u128 {
@@ -1167,6 +1211,7 @@ fn gen_c18(ctx: &mut Ctx) {
 }
 
 fn gen_c19(ctx: &mut Ctx) {
+    zero_word_cases(ctx);
     for k in fixed_kinds() {
         let cap = kind_cap(k);
         let w = kind_w(k);
